@@ -31,9 +31,9 @@ ASSUMPTIONS = [
     'failure belong to the same request and must stay on the same node.',
     'A transport exception counts as a failed request.',
 ]
-EXPECTED_PROBES = ['two_requests_overlapped_and_finished_out_of_order', 'member_node_probed_directly', 'aborted_call_then_request', 'application_touched_client_inputs', 'pool_given_as_bare_string', 'request_from_worker_thread', 'duplicate_pool_entry', 'two_clients_one_uri_list', 'error_then_request', 'exception_then_request', 'transient_exhausted_then_request', 'wrapped_around']
+EXPECTED_PROBES = ['client_object_displayed', 'two_requests_overlapped_and_finished_out_of_order', 'member_node_probed_directly', 'aborted_call_then_request', 'application_touched_client_inputs', 'pool_given_as_bare_string', 'request_from_worker_thread', 'duplicate_pool_entry', 'two_clients_one_uri_list', 'error_then_request', 'exception_then_request', 'transient_exhausted_then_request', 'wrapped_around']
 
-OUTCOMES = ['ok', 's404', 's401', 's400', 'perm500', 'trans_ok', 'trans6', 'exc', 'exc_timeout', 'exc_chunked', 'exc_connect_timeout', 'abort_interrupt', 'abort_cancelled']
+OUTCOMES = ['ok', 's404', 's401', 's400', 'perm500', 'trans_ok', 'trans6', 'exc', 'exc_timeout', 'exc_chunked', 'exc_connect_timeout', 'abort_interrupt', 'abort_cancelled', 'ok_badjson']
 VIAS = ['get', 'post', 'put', 'delete', 'request', 'shell.header', 'shell.counter', 'shell.inject',
         'shell.monitor_heads', 'shell.monitor_bootstrapped', 'shell.peer_log_monitor', 'shell.points', 'shell.raw_bytes', 'shell.pending', 'shell.mempool_post',
         'get_block_by_hash', 'shell.block_by_hash']
@@ -74,7 +74,7 @@ def gen(seed, tier):
         if rng.random() < 0.04:
             # between two requests the application touches things the client was built from / exposes:
             # it edits the list it passed to the constructor, or re-assigns the public `headers` attribute (a refreshed token)
-            st['touch'] = rng.choice(['append_uri', 'remove_uri', 'set_headers', 'member_probe', 'member_probe'])
+            st['touch'] = rng.choice(['append_uri', 'remove_uri', 'set_headers', 'member_probe', 'member_probe', 'repr', 'repr'])
         if rng.random() < 0.03 and not st.get('thread') and o in ('ok', 's404', 'perm500', 'exc'):
             # this request is still in flight (a slow node) when the application issues the next one from another thread; the slow one
             # finishes last.  Neither of the two is judged; every later request has a well-defined index again and is judged.
@@ -136,6 +136,9 @@ def execute(scn, want_log=False):
             return core.Reply.error('ChunkedEncodingError', 'scripted: truncated response')
         if o == 'exc_connect_timeout':
             return core.Reply.error('ConnectTimeout', 'scripted')
+        if o == 'ok_badjson':
+            # answered 200, but the body is not JSON (a gateway page, an empty or truncated body): the request was sent and answered
+            return core.Reply.text(['<html><body>gateway</body></html>', '', '{"truncated": '][cur['k'] % 3], 200)
         if o == 'abort_interrupt':
             return core.Reply.error('KeyboardInterrupt', 'scripted: the user interrupts a call that hangs')
         if o == 'abort_cancelled':
@@ -182,6 +185,10 @@ def execute(scn, want_log=False):
                     shared_list.pop()
                 elif st['touch'] == 'set_headers':
                     node.headers = {'Authorization': f'Bearer t{gi}'}
+                elif st['touch'] == 'repr':
+                    # the application (a notebook cell, a log line) looks at the client object
+                    _ = repr(node), str(node), '%r %s' % (shell, shell.node)
+                    bump('client_object_displayed')
                 elif st['touch'] == 'member_probe':
                     # a health probe sent straight to one member of the pool (the public `nodes` list): not a request of the pool
                     member = node.nodes[gi % len(node.nodes)]
